@@ -163,6 +163,29 @@ fn run(ctx: &Ctx) {
         },
         check,
     );
+    // third alphabet (XML blanks vs FF/VT/NUL/0xA0): all cut sets, trimming always on
+    let n3 = ctx.tier.pick(4u32, 5);
+    let count3 = gen::exh_count(gen::SIGMA3.len() as u64, n3);
+    let masks3 = 1u64 << (n3 - 1);
+    ctx.run_indexed(
+        "exh-bytes-alphabet3-x-all-cuts",
+        count3 * masks3,
+        |i| {
+            let input = gen::exh_bytes(gen::SIGMA3, i / masks3);
+            let m = i % masks3;
+            if input.len() < 2 {
+                if m != 0 {
+                    return None;
+                }
+            } else if m >> (input.len() - 1) != 0 {
+                return None;
+            }
+            let mut r = rot(seed, "c02-a3", i);
+            let cfg = (r.next() & 127) as u8 | TRIM_START;
+            Some(Case { cuts: cuts_from_mask(m, input.len()), input: B(input), cfg, pend: vec![1, 0, 2], clear: true })
+        },
+        check,
+    );
     // every pending pattern (0..=2 before each of the first four refills) for short strings x all cuts
     let ns = ctx.tier.pick(3u32, 4);
     let scount = gen::exh_count(13, ns);
